@@ -76,7 +76,7 @@ def standalone_cases(rng, names, count, length=None, nmax=12):
         if name in LARGE_OK and length is None and (i // len(names)) % 6 == 5:
             # every sixth pass: a large window and a stream long enough to wrap it several times
             n = 20 + rng.below(21)
-            if name not in ("Net", "Cti", "Alma", "Cog") and rng.chance(0.35):
+            if name not in ("Net", "Cti", "Alma", "Cog", "Ema") and rng.chance(0.35):
                 n = rng.choice([64, 97, 101, 128])          # powers of two, primes, > 100
             d = mk_view(rng, name, n=n)
             L = (90 + rng.below(70)) if name not in ("Net", "Cti", "Alma") else 70
